@@ -40,10 +40,10 @@ def run_one(sc, bound=75):
     except (OSError, ValueError):
         pass
     shutil.rmtree(scratch, ignore_errors=True)
+    fate = 'ok' if rc == 0 else 'hung' if rc == 'timeout' else 'died:%s' % rc
     if res is None:
-        res = {'kind': sc['kind'], 'scenario': sc, 'host': 'hung' if rc == 'timeout' else 'died:%s' % rc}
-    else:
-        res['host'] = 'ok'
+        res = {'kind': sc['kind'], 'scenario': sc}
+    res['host'] = fate
     res['wall10'] = int((time.time() - t0) * 10)
     return res
 
